@@ -23,12 +23,14 @@ import (
 	"os"
 	"os/exec"
 	"path/filepath"
+	"regexp"
 	"runtime"
 	"sort"
 	"strconv"
 	"strings"
 	"syscall"
 	"time"
+	"unsafe"
 
 	"filippo.io/sunlight/internal/ctlog"
 )
@@ -232,6 +234,9 @@ var localfsSyscalls = []string{"open", "openat", "openat2", "creat", "mkdir", "m
 	"symlink", "symlinkat", "truncate", "ftruncate", "fallocate", "copy_file_range", "sendfile", "utimensat",
 	"setxattr", "lsetxattr", "fsetxattr", "chdir", "fchdir", "dup", "dup2", "dup3", "getdents64", "mmap"}
 
+// the ") = " that separates arguments from the return value (strace pads it with spaces)
+var localfsRetRe = regexp.MustCompile(`\)\s+= `)
+
 // localfsRaw is one parsed strace line.
 type localfsRaw struct {
 	Pid  string
@@ -247,20 +252,17 @@ type localfsRaw struct {
 func localfsSplitArgs(s string) (args []string, isStr []bool) {
 	var cur strings.Builder
 	depth := 0
-	inStr := false
-	wasStr := false
+	inStr, wasStr, afterStr := false, false, false
 	flush := func() {
-		t := strings.TrimSpace(cur.String())
+		t := cur.String()
 		if wasStr {
-			// strip a trailing "..." that strace appends to truncated strings
-			t = strings.TrimSuffix(t, "...")
 			args = append(args, localfsUnescape(t))
 		} else {
-			args = append(args, t)
+			args = append(args, strings.TrimSpace(t))
 		}
 		isStr = append(isStr, wasStr)
 		cur.Reset()
-		wasStr = false
+		wasStr, afterStr = false, false
 	}
 	for i := 0; i < len(s); i++ {
 		c := s[i]
@@ -271,10 +273,14 @@ func localfsSplitArgs(s string) (args []string, isStr []bool) {
 				i++
 				cur.WriteByte(s[i])
 			} else if c == '"' {
-				inStr = false
+				inStr, afterStr = false, true
 			} else {
 				cur.WriteByte(c)
 			}
+		case c == ',' && depth == 0:
+			flush()
+		case afterStr:
+			// the "..." strace appends to a truncated string: not part of the value
 		case c == '"' && depth == 0 && strings.TrimSpace(cur.String()) == "":
 			inStr, wasStr = true, true
 			cur.Reset()
@@ -296,8 +302,6 @@ func localfsSplitArgs(s string) (args []string, isStr []bool) {
 		case c == ')' || c == ']' || c == '}':
 			depth--
 			cur.WriteByte(c)
-		case c == ',' && depth == 0:
-			flush()
 		default:
 			cur.WriteByte(c)
 		}
@@ -389,7 +393,10 @@ func localfsParseStrace(path string) ([]localfsRaw, error) {
 			delete(pend, pid)
 		}
 		op := strings.IndexByte(rest, '(')
-		eq := strings.LastIndex(rest, ") = ")
+		eq, eqEnd := -1, -1
+		if m := localfsRetRe.FindAllStringIndex(rest, -1); len(m) > 0 {
+			eq, eqEnd = m[len(m)-1][0], m[len(m)-1][1]
+		}
 		if op < 0 {
 			continue
 		}
@@ -397,7 +404,7 @@ func localfsParseStrace(path string) ([]localfsRaw, error) {
 		argText := ""
 		if eq > op {
 			argText = rest[op+1 : eq]
-			retf := strings.Fields(rest[eq+4:])
+			retf := strings.Fields(rest[eqEnd:])
 			if len(retf) > 0 {
 				r.Ret = retf[0]
 			}
@@ -613,23 +620,21 @@ func localfsNormalise(world, cwd string, raws []localfsRaw, nops int) []localfsO
 		case "renameat", "renameat2":
 			ev.Kind, ev.Path, ev.Dst, ev.A = "rename", rel(arg(1)), rel(arg(3)), b2i(ok)
 		case "unlinkat":
-			ev.Kind, ev.Path = "unlink", rel(arg(1))
-			if !ok || arg(2) != "0" {
-				ev.Kind = "other"
+			ev.Path, ev.A = rel(arg(1)), b2i(ok)
+			switch {
+			case arg(2) == "AT_REMOVEDIR":
+				ev.Kind = "rmdir"
+			case arg(2) == "0" && ok:
+				ev.Kind = "unlink"
+			case arg(2) == "0":
+				ev.Kind = "unlinkfail"
 			}
 		case "ioctl":
 			fd, known := fds[arg(0)]
 			ev.Path = fd.path
-			if known && arg(1) == "FS_IOC_SETFLAGS" {
-				on := strings.Contains(arg(2), "FS_IMMUTABLE_FL")
-				if fd.kind == "dir" || !ok {
-					ev.Kind = "other"
-				} else {
-					ev.Kind, ev.A = "setimm", b2i(on)
-				}
-				if ok && fd.kind == "rd" && r.Errn == "" {
-					// a directory opened with os.Open is an "rd" descriptor: decided by the caller via lstat
-				}
+			if known && arg(1) == "FS_IOC_SETFLAGS" && fd.kind == "rd" {
+				// best effort in the code under test: the result is ignored there, recorded here
+				ev.Kind, ev.A, ev.B = "setimm", b2i(strings.Contains(arg(2), "FS_IMMUTABLE_FL")), b2i(ok)
 			}
 		case "mmap":
 			if arg(4) == "-1" { // anonymous memory: not a file operation
@@ -781,7 +786,7 @@ func localfsClear(p string) {
 		if err == nil && fi.Mode().IsRegular() || err == nil && fi.IsDir() {
 			if f, e := os.Open(q); e == nil {
 				var flags int32
-				syscall.Syscall(syscall.SYS_IOCTL, f.Fd(), 0x40086602, uintptr(localfsPtr(&flags)))
+				syscall.Syscall(syscall.SYS_IOCTL, f.Fd(), 0x40086602, uintptr(unsafe.Pointer(&flags)))
 				f.Close()
 			}
 		}
